@@ -191,6 +191,14 @@ func TestVfC12(t *testing.T) {
 	const maxRetries = 3
 	for i := 0; i < r.Pick(150, 1500); i++ {
 		cred := fmt.Sprintf("email:user%d-%d@example.com", r.Batch(), i)
+		// credentials with characters which are special to the stores (LIKE wildcards, separators, quotes)
+		if shapes := []string{"", "email:carol%%sales%d-%d@example.com", "tel:+1_555_%d_%d", "email:100%%%d-%d@example.com", "email:a/b%d-%d@example.com",
+			"email:o'brien%d-%d@example.com", "email:x:y%d-%d@example.com", "email:%%%%%d-%d%%@example.com"}; i%2 == 1 {
+			if sh := shapes[(i/2)%len(shapes)]; sh != "" {
+				cred = fmt.Sprintf(sh, r.Batch(), i)
+				r.Hit("reset_code_hostile_credential")
+			}
+		}
 		uid := types.Uid(rng.Uint64() | 1)
 		codeB, _, err := ch.GenSecret(&auth.Rec{Uid: uid, AuthLevel: auth.LevelAuth, Features: auth.FeatureNoLogin, Credential: cred})
 		if err != nil {
@@ -245,6 +253,28 @@ func TestVfC12(t *testing.T) {
 				}
 			} else if guess != code && !consumed && wrong < maxRetries {
 				wrong++
+			}
+		}
+		// directed: whatever the random attempts did, the right code presented now is accepted only if it has not
+		// been accepted before and the retry limit has not been reached; presented once more it is refused
+		for k := 0; k < 2; k++ {
+			_, _, err := ch.Authenticate([]byte(code+":"+cred), "")
+			expect := !consumed && wrong < maxRetries
+			attempts = append(attempts, fmt.Sprintf("final-right->%v", err == nil))
+			r.Hit("reset_code_attempt")
+			if (err == nil) != expect {
+				sig := "reset-code:right-code-refused"
+				if err == nil && consumed {
+					sig = "reset-code:accepted-twice"
+				} else if err == nil {
+					sig = "reset-code:accepted-after-max-retries"
+				}
+				r.Violation(sig, fmt.Sprintf("credential %q code %s: accepted=%v, expected %v (wrong guesses %d, consumed %v)", cred, code, err == nil, expect, wrong, consumed),
+					map[string]any{"attempts": attempts, "credential": cred})
+				break
+			}
+			if err == nil {
+				consumed = true
 			}
 		}
 		r.Eval("code/" + vfkit.Hash(attempts))
